@@ -14,7 +14,7 @@ func init() {
 			SliderSummary: true,
 			Native:        []NativeRun{{"movegen", "VpV_Corpus"}},
 			Bounds: []string{
-				"no bound on material: ARBITRARY valid position (64 symbolic cells, castling, e.p.), case split on (side to move, square of the mover's king); thorough: all 128 cases; quick: king on a1, e1, e8, h8 plus one seeded (VERIF_SEED) square, both colours",
+				"no bound on material: ARBITRARY valid position (64 symbolic cells, castling, e.p.), case split on (side to move, square of the mover's king); thorough: all 128 cases; quick: king on a1, e1, e8, h8, d3, g4, e6 plus one seeded (VERIF_SEED) square, both colours (16 cases)",
 				"bit-scan loops of IsCheckmate/IsStalemate/Attackers/Block/IsAttacked re-indexed by bit position (exact)",
 			},
 			Stubs: []string{"attacks.RookMoves/BishopMoves -> ray-walk specification per square, licensed by re-proving the C12 lemma on this run"},
@@ -29,11 +29,11 @@ func init() {
 				kings[k] = true
 			}
 		} else {
-			for _, k := range []int64{0, 4, 60, 63} {
+			for _, k := range []int64{0, 4, 60, 63, 19, 30, 44} {
 				kings[k] = true
 			}
 			rng := rand.New(rand.NewSource(seed + 99))
-			for len(kings) < 5 {
+			for len(kings) < 8 {
 				kings[int64(rng.Intn(64))] = true
 			}
 		}
